@@ -684,6 +684,80 @@ def sched_script(r, idx, seq=None):
     return {"cfg": cfg, "steps": steps, "tag": {"family": "sched", "idx": idx, "fair": fair}}
 
 
+def _varint(v):
+    if v < 64:
+        return bytes([v])
+    if v < 16384:
+        return bytes([0x40 | (v >> 8), v & 0xff])
+    return bytes([0x80 | (v >> 24), (v >> 16) & 0xff, (v >> 8) & 0xff, v & 0xff])
+
+
+def dispatch_datagram(r, label):
+    """Bytes for one case of the front-door table: j<n> junk of n bytes; s<n> short header of n bytes
+    (sx: fixed bit clear); l<v><n> long header of n bytes with v = b unsupported version (bx: fixed bit
+    clear, bc: a 21-byte connection ID), z version 0, i Initial (is: 4-byte destination ID), q 0-RTT,
+    h Handshake, r Retry, t truncated in the connection IDs."""
+    def rnd(n):
+        return bytes(r.randrange(256) for _ in range(n))
+    if label[0] == "j":
+        n = int(label[1:])
+        return rnd(n) if n == 0 else bytes([0x00]) + rnd(n - 1)      # short form without the fixed bit
+    if label[0] == "s":
+        nofix = label[1] == "x"
+        n = int(label[2:] if nofix else label[1:])
+        first = (0x00 if nofix else 0x40) | r.randrange(64)
+        return (bytes([first]) + rnd(max(0, n - 1)))[:n]
+    kind = label[1]
+    rest = label[2:]
+    flag = ""
+    while rest and not rest[0].isdigit():
+        flag += rest[0]
+        rest = rest[1:]
+    n = int(rest)
+    ty = {"i": 0, "q": 1, "h": 2, "r": 3}.get(kind, r.randrange(4))
+    first = 0x80 | (0 if "x" in flag else 0x40) | (ty << 4) | r.randrange(16)
+    ver = {"b": r.choice([b"\x1a\x2a\x3a\x4a", b"\xff\x00\x00\x1c", b"\x00\x00\x00\x02", b"\x0a\x1a\x2a\x3a"]),
+           "z": b"\x00\x00\x00\x00"}.get(kind, r.choice([b"\x00\x00\x00\x01", b"\xff\x00\x00\x1d"]))
+    if kind == "t":
+        return (bytes([first]) + b"\x00\x00\x00\x01" + bytes([20]) + rnd(30))[:n]
+    dl = 21 if "c" in flag else 4 if "s" in flag else r.choice([0, 8, 8, 20]) if kind in "bz" else r.choice([8, 8, 12, 20])
+    sl = r.choice([0, 8, 20]) if kind in "bz" else r.choice([0, 8])
+    if kind == "b" and n <= 14:
+        dl, sl = (0, 0) if n <= 13 else r.choice([(0, 7), (7, 0)])
+    hdr = bytes([first]) + ver + bytes([dl]) + rnd(dl) + bytes([sl]) + rnd(sl)
+    if kind == "i":
+        body = max(0, n - len(hdr) - 3)
+        hdr += _varint(0) + bytes([0x40 | (body >> 8), body & 0xff])
+    elif kind in "qh":
+        body = max(0, n - len(hdr) - 2)
+        hdr += bytes([0x40 | (body >> 8), body & 0xff])
+    data = hdr + rnd(max(0, n - len(hdr)))
+    return data[:max(n, 0)] if kind in "bz" and n < len(hdr) else data[:n] if len(data) >= n else data
+
+
+def dispatch_script(r, idx, labels=None):
+    """Datagrams of every kind the front door distinguishes, sent from an address nobody knows to a
+    server and to an endpoint that accepts nothing, alone and in pairs a few milliseconds apart."""
+    cfg = base_cfg(r, server={"idle_ms": 30000}, client={"idle_ms": 30000})
+    cfg["cid_gen"] = r.choice(["det", "det", "random", "hashed"])
+    if r.random() < 0.3:
+        cfg["min_reset_interval_ms"] = r.choice([0, 5, 100])
+    steps = []
+    if r.random() < 0.7:
+        steps += [{"do": "connect", "n": 1}, {"do": "run_until", "what": "connected", "max_us": 20000000}]
+    if labels is None:
+        menu = ["j0", "j1", "s8", "s21", "s22", "s23", "s40", "s100", "s1200", "sx100", "lb7", "lb13", "lb14", "lb47", "lb100",
+                "lb1200", "lbx100", "lbc100", "lz50", "li100", "li1199", "li1200", "li1300", "lis1200", "lh100", "lq100", "lr100", "lt20"]
+        labels = [r.choice(menu) for _ in range(r.choice([3, 8, 20]))]
+    for lab in labels:
+        to = r.choice([0, 0, 1])
+        steps.append({"do": "raw", "to": to, "hex": dispatch_datagram(r, lab).hex(),
+                      "from": [r.choice([7, 9]), r.choice([1, 2]), r.choice([40000, 40001])]})
+        steps.append({"do": "run", "us": r.choice([0, 0, 3000, 12000, 25000, 120000])})
+    steps.append({"do": "run", "us": 500000})
+    return {"cfg": cfg, "steps": steps, "tag": {"family": "dispatch", "idx": idx, "labels": list(labels)}}
+
+
 # ------------------------------------------------------------------------------------------------
 # C11
 
